@@ -916,3 +916,55 @@ Proof.
   specialize (H e He). unfold classified in H. destruct (classify e) as [k|] eqn:E; [|discriminate].
   exists k. split; [reflexivity|apply kind_ok_all].
 Qed.
+
+(* ------------------------------------------------------------------ the log-Jacobian expressions of the 2-d / 3-d blocks
+   denote the quantities of the determinant theorems *)
+Lemma angle_lj_den : forall th r aux sc, evalR [th; r; aux; sc] (Rnd (Ln (V 1))) = ln r.
+Proof. reflexivity. Qed.
+
+Lemma to_cartesian_lj_den : forall x r sgn a b sc,
+  evalR [x; r; sgn; a; b; sc] (Rnd (Add (Rnd (Neg (Rnd (Ln (Rnd (Sub (V 4) (V 3))))))) (Rnd (Ln (V 1))))) = - ln (b - a) + ln r.
+Proof. reflexivity. Qed.
+
+Lemma angle_pair_lj_den : forall a v r aux,
+  evalR [a; v; r; aux] (Rnd (Add (Rnd (Mul c2 (Rnd (Ln (V 2))))) (Rnd (Ln (Rnd (Sin (V 1))))))) = 2 * ln r + ln (sin v) /\
+  evalR [a; v; r; aux] (Rnd (Add (Rnd (Mul c2 (Rnd (Ln (V 2))))) (Rnd (Ln (Rnd (Cos (V 1))))))) = 2 * ln r + ln (cos v).
+Proof. split; cbn [evalR nth]; rewrite ev_c2; reflexivity. Qed.
+
+(* ToCartesian: (x, r) -> (r cos th, r sin th), th = sgn * ((x - a)/(b - a)) * sc: partial derivatives and determinant;
+   |det| = exp ((- ln (b - a) + ln r) + ln sc): the reported value misses only the constant ln sc *)
+Theorem to_cartesian_jacobian : forall a b sc sgn x r, a < b ->
+  let th := fun t => sgn * ((t - a) / (b - a)) * sc in
+  let k := sgn * sc / (b - a) in
+  is_derive (fun t => r * cos (th t)) x (- k * r * sin (th x)) /\
+  is_derive (fun q => q * cos (th x)) r (cos (th x)) /\
+  is_derive (fun t => r * sin (th t)) x (k * r * cos (th x)) /\
+  is_derive (fun q => q * sin (th x)) r (sin (th x)) /\
+  (- k * r * sin (th x)) * sin (th x) - cos (th x) * (k * r * cos (th x)) = - (k * r).
+Proof.
+  intros a b sc sgn x r Hab th k. unfold th, k.
+  split; [|split; [|split; [|split]]].
+  - auto_derive; [exact I|]. replace ((x + - a) * / (b - a)) with ((x - a) / (b - a)) by (field; lra). field; lra.
+  - auto_derive; [exact I|ring].
+  - auto_derive; [exact I|]. replace ((x + - a) * / (b - a)) with ((x - a) / (b - a)) by (field; lra). field; lra.
+  - auto_derive; [exact I|ring].
+  - set (t := sgn * ((x - a) / (b - a)) * sc).
+    replace (- (sgn * sc / (b - a)) * r * sin t * sin t - cos t * (sgn * sc / (b - a) * r * cos t))
+      with (- (sgn * sc / (b - a) * r) * ((sin t)² + (cos t)²)) by (unfold Rsqr; ring).
+    rewrite sin2_cos2. ring.
+Qed.
+
+Theorem to_cartesian_logdet : forall a b sc sgn r, a < b -> 0 < sc -> (sgn = 1 \/ sgn = -1) -> 0 < r ->
+  Rabs (- (sgn * sc / (b - a) * r)) = exp ((- ln (b - a) + ln r) + ln sc).
+Proof.
+  intros a b sc sgn r Hab Hsc Hs Hr.
+  assert (Hp : 0 < sc / (b - a) * r).
+  { apply Rmult_lt_0_compat; [apply Rdiv_lt_0_compat; lra|exact Hr]. }
+  rewrite Rabs_Ropp.
+  replace (Rabs (sgn * sc / (b - a) * r)) with (sc / (b - a) * r).
+  2:{ destruct Hs as [-> | ->].
+      - rewrite Rmult_1_l. symmetry. apply Rabs_pos_eq. lra.
+      - replace (-1 * sc / (b - a) * r) with (- (sc / (b - a) * r)) by (field; lra).
+        rewrite Rabs_Ropp. symmetry. apply Rabs_pos_eq. lra. }
+  rewrite !exp_plus, exp_Ropp, !exp_ln by lra. field. lra.
+Qed.
